@@ -428,6 +428,29 @@ pub fn run(ctx: &mut Ctx) {
             Ok(b) if b.len() == 2 && b[1] == *s && b[0] == "x" => {}
             other => ctx.fail(if s.contains('\r') { "F78:literal-wrapper-carriage-return" } else { "F8:space-after-block-scalar" }, format!("SpaceAfter([LitString(x), LitString({s:?})]) emitted {t:?}, read back {other:?}"), json!({"kind": "space_after_seq", "s": s})),
         }
+        // a literal string as a field of a mapping that is a sequence element (its key sits at the dash + 2, not on the
+        // indentation grid), under every indentation step
+        for step in [2usize, 3, 4] {
+            #[derive(serde::Serialize)]
+            struct Item {
+                note: LitString,
+                other: usize,
+            }
+            #[allow(deprecated)]
+            let mut so = serde_saphyr::SerializerOptions::default();
+            #[allow(deprecated)]
+            {
+                so.indent_step = step;
+            }
+            ctx.direct_evaluations += 1;
+            let t = serde_saphyr::to_string_with_options(&vec![Item { note: LitString(s.to_string()), other: 0 }], so).unwrap_or_default();
+            let want = Tree::Seq(vec![Tree::Map(vec![(Tree::Str("note".into()), Tree::Str(s.to_string())), (Tree::Str("other".into()), Tree::U64(0))])]);
+            match serde_saphyr::from_str::<Tree>(&t) {
+                Ok(b) if b == want => {}
+                other => ctx.fail(if s == "\n" { "F49:literal-single-line-break" } else if s.contains('\r') { "F78:literal-wrapper-carriage-return" } else { "literal-wrapper-round-trip" },
+                    format!("[indent_step {step}] [{{note: LitString({s:?}), other: 0}}] emitted {t:?}, read back {other:?}"), json!({"kind": "lit_in_seq_of_maps", "s": s, "indent_step": step})),
+            }
+        }
         #[derive(serde::Serialize)]
         struct Note {
             note: SpaceAfter<LitString>,
